@@ -277,7 +277,7 @@ def seq_strategy():
 
 
 def shards(tier, seed):
-    out = [dict(kind='degenerate'),
+    out = [dict(kind='degenerate'), dict(kind='fixed-orders'),
            dict(kind='model-order', seed=seed * 1000 + 90,
                 n=24 if tier == 'quick' else 200)]
     for k in range(8):
@@ -292,6 +292,9 @@ def shards(tier, seed):
 def run_shard(shard, rec):
     if shard['kind'] == 'degenerate':
         check_degenerate(rec)
+    elif shard['kind'] == 'fixed-orders':
+        for spec in FIXED_ORDER_SPECS:
+            all_orders(rec, spec)
     elif shard['kind'] == 'model-order':
         from vlib import purity
         specs = []
@@ -323,22 +326,49 @@ def run_shard(shard, rec):
             focus='context' if shard['seed'] % 2 else None)
 
         def body(spec):
-            forms = spec['formulas'][:6]
-            n = len(forms)
-            expected = wbspec.fresh_values(spec)
-            sub = dict(spec)
-            sub['formulas'] = forms
-            for pn, perm in enumerate(itertools.permutations(range(n))):
-                seq = [(i, pn + 3 * j, pn + j) for j, i in enumerate(perm)]
-                res = check_case(rec, sub, 'mem', seq, expected=expected)
-                if res:
-                    return res
-            rec.label('specs-with-all-orders')
-            return None
+            return all_orders(rec, spec)
         hyp.search(rec, strategy, body, shard['n'], shard['seed'],
                    shrink=False)
         rec.exhaustive.append('all first-evaluation orders of <=6 formula '
                               'cells for each sampled small workbook')
+
+
+def all_orders(rec, spec):
+    forms = spec['formulas'][:6]
+    n = len(forms)
+    expected = wbspec.fresh_values(spec)
+    sub = dict(spec)
+    sub['formulas'] = forms
+    for pn, perm in enumerate(itertools.permutations(range(n))):
+        seq = [(i, pn + 3 * j, pn + j) for j, i in enumerate(perm)]
+        res = check_case(rec, sub, 'mem', seq, expected=expected)
+        if res:
+            return res
+    rec.label('specs-with-all-orders')
+    return None
+
+
+# ordinary cells whose functions are context-sensitive (IFERROR / IFNA / IFS
+# over a range), read by a CSE block, by plain formulas and by each other
+FIXED_ORDER_SPECS = [
+    dict(sheets={wbspec.INSHEET: {'B3': 1},
+                 'S': {'A1': 1, 'A2': 2, 'A3': 3,
+                       'B1': '=IFERROR(A1:A3,9)', 'B2': '=IFNA(A1:A3,7)',
+                       'D1': '=SUM(C1:C3)+B1', 'D2': '=B1+B2'}},
+         arrays=[dict(sheet='S', ref='C1:C3', formula='=A1:A3*B1+B2')],
+         names={}, active='S', inputs=['S!A1', 'S!A2', 'S!A3'],
+         formulas=['S!B1', 'S!B2', 'S!C1', 'S!C2', 'S!D1', 'S!D2'],
+         ranges=['S!C1:C3', 'S!A1:A3']),
+    dict(sheets={wbspec.INSHEET: {'B3': 1},
+                 'S': {'A1': -1, 'B1': 2, 'A2': 0, 'B2': 5,
+                       'C1': '=IFS(A1:B2>0,B1,TRUE,A2)',
+                       'C2': '=IFERROR(A1:B1/A2,B2)',
+                       'D4': '=C1+C2+A3'}},
+         arrays=[dict(sheet='S', ref='A3:B3', formula='=A1:B1+C1*C2')],
+         names={}, active='S', inputs=['S!A1', 'S!B1', 'S!A2', 'S!B2'],
+         formulas=['S!C1', 'S!C2', 'S!A3', 'S!B3', 'S!D4'],
+         ranges=['S!A3:B3', 'S!A1:B2']),
+]
 
 
 def replay(case, rec):
